@@ -4,6 +4,8 @@ import (
 	"fmt"
 	"sort"
 	"strings"
+
+	"golang.org/x/tools/go/ssa"
 )
 
 func dumpSQL(p *Program, all bool) {
@@ -64,4 +66,19 @@ func dumpStates(p *Program) {
 		fmt.Printf("%-26s %-12s %-34s -> %-12s %-22s %s\n", e.Root, e.Kind, e.From.String(), e.ToStr, p.InstrPos(e.Instr), e.Chain)
 	}
 	fmt.Println("events:", len(sf.Events))
+}
+
+func dumpLoop(p *Program) {
+	fn := p.Func("queue", "(*MemoryStore).filterManageCandidatesLocked")
+	for _, ci := range allCalls(fn, func(ci ssa.CallInstruction) bool {
+		bi, ok := ci.Common().Value.(*ssa.Builtin)
+		return ok && bi.Name() == "append"
+	}) {
+		h := loopHeaderOf(ci.Block())
+		hi := -1
+		if h != nil {
+			hi = h.Index
+		}
+		fmt.Println("append in block", ci.Block().Index, "header", hi)
+	}
 }
